@@ -44,12 +44,40 @@ struct Document
     void set_urgent_transition() {}
     void clock_guard_recv_broadcast() {}
 };
+class frame_t
+{
+public:
+    symbol_t syms[4];
+    int n;
+    uint32_t get_size() const { return (uint32_t)n; }
+    symbol_t& operator[](uint32_t i) { __CPROVER_assert(i < (uint32_t)n, "stub: frame index in range"); return syms[i]; }
+    symbol_t* begin() { return &syms[0]; }
+    symbol_t* end() { return &syms[0] + n; }
+};
+struct instance_t
+{
+    symbol_t uid;
+    frame_t parameters;
+    size_t arguments, unbound;
+    verif_symset restricted;
+};
+#ifdef VERIF_REAL_C13
+struct CompileTimeComputableValues
+{
+    verif_symset variables;
+    void visitVariable(variable_t&);
+    void visitInstance(instance_t&);
+    void add_symbol(symbol_t);
+    bool contains(symbol_t) const;
+};
+#else
 struct CompileTimeComputableValues
 {
     verif_symset variables;
     void add_symbol(symbol_t s) { variables.insert(s); }
     bool contains(symbol_t s) const { return variables.find(s) != variables.end(); }
 };
+#endif
 class TypeChecker
 {
 public:
@@ -66,7 +94,14 @@ public:
         if (!e.data->g_e) verif_err_count++; /* contract: rejection records an error */
         return e.data->g_e;
     }
+#ifdef VERIF_REAL_C13
+    bool isCompileTimeComputable(expression_t expr) const;            /* REAL (ctc_funcs.inc) */
+    bool isCompileTimeComputable__contract(expression_t e) const { return e.empty() || e.data->g_f; }
+    void visitProcess(instance_t& process);                           /* REAL */
+    void checkType_range(type_t type);                                /* REAL: case RANGE of checkType */
+#else
     bool isCompileTimeComputable(expression_t e) const { return e.empty() || e.data->g_f; }
+#endif
     expression_t checkInitialiser(type_t, expression_t init) { return init; }
     void checkType(type_t, bool initialisable = false, bool inStruct = false) {}
     bool checkAssignmentExpression(expression_t) { bool b; return b; }
